@@ -223,8 +223,12 @@ def constructors(ctx, facts, cfg):
                         tss = [ts for ts in core.try_sites(body) if ts['ok_bb'] is not None]
                         dom = (not okb) or any(all(body.edge_dominates((ts['switch_bb'], ts['ok_bb']), ob) for ob in okb) for ts in tss)
                         tail = [b for (b, k, d) in oks if k == 'tailcall']
-                        if dom or tail:
+                        if (dom or tail) and must_pass(facts, S, key, '%s::validate' % codec):
                             ctx.ok(R, '%s@%s' % (key, cfg), {'fails_exactly_through': core.short(codec) + '::validate(original_count, recovery_count, shard_bytes)'})
+                        elif dom or tail:
+                            ctx.violation(R, 'ok-without-validate:%s%s:%s' % (K, side, meth),
+                                          '%s can return Ok on a path that never passes a successful %s::validate (e.g. a fast path in a helper): construction/reset succeeds for configurations that supports() rejects'
+                                          % (key, core.short(codec)), site=fn.span, fn=key, cfg=cfg)
                         else:
                             ctx.violation(R, 'ok-not-dominated:%s%s:%s' % (K, side, meth), '%s can return Ok without its validation having succeeded' % key, site=fn.span, fn=key, cfg=cfg)
                     else:
@@ -257,6 +261,37 @@ def constructors(ctx, facts, cfg):
             ctx.ok(R, 'pure:%s@%s' % (k, cfg), None, nontrivial=False)
         else:
             ctx.violation(R, 'impure-predicate:%s' % K, '%s is not a pure function of its arguments (%s)' % (k, getattr(S, '_pure_why', {}).get(k)), fn=k, cfg=cfg)
+
+
+def must_pass(facts, S, key, pred, depth=0):
+    """every Ok exit (ctor or tail) of instance `key` is dominated by the Ok edge of a `?` on `pred` itself or on a
+    callee for which the same holds (must-pass-through, interprocedural); tail calls count likewise"""
+    if depth > 6:
+        return False
+    inst = S.inst(key)
+    fn = inst.fn
+    if fn is None:
+        return False
+    body = fn.body
+    errs, oks = core.result_exits(body)
+    ok_ctor = [b for (b, k, d) in oks if k == 'ctor']
+    ok_tail = [b for (b, k, d) in oks if k == 'tailcall']
+    good_edges = []
+    for ts in core.try_sites(body):
+        if ts['call_bb'] is None or ts['ok_bb'] is None:
+            continue
+        ck = inst.callee_key(ts['call_bb'])
+        if ck == pred or (ck in facts.instances or ck in facts.fns) and ck != key and must_pass(facts, S, ck, pred, depth + 1):
+            good_edges.append((ts['switch_bb'], ts['ok_bb']))
+    for ob in ok_ctor:
+        if not any(body.edge_dominates(e, ob) for e in good_edges):
+            return False
+    for tb in ok_tail:
+        ck = inst.callee_key(tb)
+        direct = (ck == pred) or ((ck in facts.instances or ck in facts.fns) and ck != key and must_pass(facts, S, ck, pred, depth + 1))
+        if not direct and not any(body.edge_dominates(e, tb) for e in good_edges):
+            return False
+    return bool(ok_ctor or ok_tail)
 
 
 def fmt_leaf(x):
